@@ -398,8 +398,8 @@ Definition ns_set (rx : bool) (rs : list rule) (p u : N) : list rule * result :=
     end
   end.
 
-(* del sheet.namespaces[p]  (util.py __delitem__): the position of the rule AMONG THE @namespace RULES is
-   handed to deleteRule as an index into the whole list *)
+(* del sheet.namespaces[p]  (util.py __delitem__, after the repair 71876c5): the index in cssRules of the last
+   @namespace rule with this prefix (= __findrule) is handed to deleteRule *)
 Fixpoint last_index_of (f : rule -> bool) (l : list rule) (i : nat) (acc : option nat) : option nat :=
   match l with
   | [] => acc
@@ -407,8 +407,7 @@ Fixpoint last_index_of (f : rule -> bool) (l : list rule) (i : nat) (acc : optio
   end.
 
 Definition ns_del (rx : bool) (rs : list rule) (p : N) : list rule * result :=
-  let nsrules := filter (is_kind NAMESPACE_RULE) rs in
-  match last_index_of (fun r => N.eqb (rprefix r) p) nsrules 0 None with
+  match last_index_of (fun r => is_kind NAMESPACE_RULE r && N.eqb (rprefix r) p) rs 0 None with
   | None => (rs, log_error rx NamespaceErr)
   | Some j => delete_rule rs (Z.of_nat j)
   end.
